@@ -33,6 +33,7 @@ import (
 	"time"
 	"unicode/utf8"
 
+	"github.com/google/gopacket"
 	"github.com/google/gopacket/macs"
 	"github.com/v-byte-cpu/sx/command/log"
 	"github.com/v-byte-cpu/sx/pkg/scan"
@@ -805,6 +806,114 @@ func c14runSeq(run *vlab.Run, c c14seqCase) {
 		// MAC carries the production index: the printed line identifies which sighting was printed
 		return &arp.ScanResult{IP: fmt.Sprintf("10.%d.%d.%d", ids[i]>>16&255, ids[i]>>8&255, ids[i]&255), MAC: fmt.Sprintf("seq-%d", i), Vendor: "v\"\n"}
 	}
+	if c.Kind == "icmppipe" || c.Kind == "tcppipe" {
+		// the whole receive side: frames -> the scan's own processor -> the engine's result channel -> the JSON
+		// logger, while the output stalls at its first line: line i must carry the values of frame i (results that
+		// are queued must not share state with the ones produced after them)
+		ctx, cancel := context.WithCancel(context.Background())
+		defer cancel()
+		out.stallFirst = 200 * time.Millisecond
+		rc := scan.NewResultChan(ctx, 1000)
+		var proc interface {
+			ProcessPacketData(data []byte, ci *gopacket.CaptureInfo) error
+		}
+		if c.Kind == "icmppipe" {
+			proc = icmp.NewPacketProcessor("icmp", rc, true)
+		} else {
+			proc = tcp.NewScanMethod("tcpflags", nil, rc, tcp.WithScanVPNmode(true))
+		}
+		l := c14logger(out, false)
+		done := make(chan struct{})
+		go func() { defer close(done); l.LogResults(ctx, rc.Chan()) }()
+		type want struct {
+			ip          string
+			a, b, third int
+		}
+		wants := make([]want, c.N)
+		dst := [4]byte{192, 0, 2, 1}
+		_, finished, parked := run.Watch(120*time.Second, "v-byte-cpu/sx/", func() {
+			for i := 0; i < c.N; i++ {
+				src := [4]byte{10, byte(i >> 16), byte(i >> 8), byte(i)}
+				var fr []byte
+				if c.Kind == "icmppipe" {
+					typ, code := uint8(i%7*3), uint8(i%251)
+					if typ == 8 {
+						typ = 11
+					}
+					sp := oracle.NewIPSpec(src, dst, oracle.ProtoICMP)
+					sp.TTL = uint8(1 + i%250)
+					fr = oracle.BuildIPv4(sp, oracle.BuildICMP(typ, code, 1, 1, []byte("12345678")))
+					wants[i] = want{oracle.IPString(src), int(typ), int(code), int(sp.TTL)}
+				} else {
+					flags := uint16(1 + i%511)
+					port := uint16(1 + i%65535)
+					fr = oracle.BuildIPv4(oracle.NewIPSpec(src, dst, oracle.ProtoTCP), oracle.BuildTCP(src, dst, oracle.TCPSpec{SrcPort: port, DstPort: 40000, Flags: flags, DataOff: -1}))
+					wants[i] = want{oracle.IPString(src), int(port), int(flags), 0}
+				}
+				if err := proc.ProcessPacketData(fr, &gopacket.CaptureInfo{CaptureLength: len(fr), Length: len(fr)}); err != nil {
+					run.Violation("pipe:processor-error", fmt.Sprintf("well-formed frame %d rejected: %v", i, err), c)
+					return
+				}
+			}
+			for w := 0; w < 6000; w++ {
+				out.mu.Lock()
+				n := len(out.writes)
+				out.mu.Unlock()
+				if n >= c.N {
+					break
+				}
+				time.Sleep(5 * time.Millisecond)
+			}
+			cancel()
+			<-done
+		})
+		run.Eval(c.N)
+		if !finished {
+			if parked {
+				run.Violation("logger-stuck", fmt.Sprintf("receive pipeline did not finish: %+v", c), c)
+			} else {
+				run.Inconclusive(fmt.Sprintf("receive pipeline still going: %+v", c))
+			}
+			return
+		}
+		out.mu.Lock()
+		writes := out.writes
+		out.mu.Unlock()
+		if len(writes) != c.N {
+			run.Violation("seq:count", fmt.Sprintf("%d frames processed, %d lines printed: %+v", c.N, len(writes), c), c)
+			return
+		}
+		for i, w := range writes {
+			var m struct {
+				IP    string `json:"ip"`
+				TTL   int    `json:"ttl"`
+				Port  int    `json:"port"`
+				Flags string `json:"flags"`
+				ICMP  struct {
+					Type int `json:"type"`
+					Code int `json:"code"`
+				} `json:"icmp"`
+			}
+			if json.Unmarshal(bytes.TrimRight(w, "\n"), &m) != nil {
+				run.Violation("seq:line-unparseable", fmt.Sprintf("line %d is not a JSON object: %.200q", i, w), c)
+				return
+			}
+			wt := wants[i]
+			ok := m.IP == wt.ip
+			if c.Kind == "icmppipe" {
+				ok = ok && m.ICMP.Type == wt.a && m.ICMP.Code == wt.b && m.TTL == wt.third
+			} else {
+				ok = ok && m.Port == wt.a && m.Flags == oracle.FlagString(uint16(wt.b))
+			}
+			if !ok {
+				run.Violation("pipe:line-carries-values-of-another-frame", fmt.Sprintf("line %d (%.160q) does not carry the values of frame %d (%+v): results that wait behind a stalled output share state with later ones: %+v", i, w, i, wt, c), c)
+				return
+			}
+		}
+		run.Count("receive_pipeline_runs", 1)
+		run.Count("sequence_lines", int64(len(writes)))
+		return
+	}
 	if c.Kind == "enginechan" {
 		// the engines' own result channel (two chained buffers) between one producer - the receiver - and the logger,
 		// with an output that stalls at its first line while thousands of results pile up behind it
@@ -997,6 +1106,10 @@ func TestVerifC14Sequences(t *testing.T) {
 					cases = append(cases, c14seqCase{Kind: "producers", N: n, Pattern: "unique", ChanCap: []int{0, 1000}[r%2], Producers: p, Seed: rng.Int63()})
 				}
 			}
+		}
+		if r < 2 {
+			cases = append(cases, c14seqCase{Kind: "icmppipe", N: []int{1500, 3000}[r], Pattern: "unique", Seed: rng.Int63()})
+			cases = append(cases, c14seqCase{Kind: "tcppipe", N: []int{1500, 3000}[r], Pattern: "unique", Seed: rng.Int63()})
 		}
 		if r < 3 {
 			cases = append(cases, c14seqCase{Kind: "enginechan", N: []int{6000, 2500, 12000}[r], Pattern: "unique", Seed: rng.Int63()})
